@@ -93,6 +93,14 @@ class Gen:
                 if ty == "bool": return Call("map_has", V(m[0]), key())
                 if ty == "int" and (vty != "int" or r.random() < 0.3): return Call("map_size", V(m[0]))
                 if ty == vty: return Call("map_get", V(m[0]), key())
+        if self.feat.get("fnvals") and ty == "int" and self.impure_ok and r.random() < 0.12:
+            cands = [f[0] for f in self.funcs if f[1] == ["int"] and f[2] == "int"]
+            fvs = [v[0] for v in sc.all() if v[1] == self.FII]
+            if cands or fvs:
+                c2 = r.random()
+                if fvs and c2 < 0.4: return Call(r.choice(fvs), self.expr("int", sc, d - 1))          # call through a local / parameter
+                if cands and c2 < 0.8: return Call("ap", V(r.choice(cands)), self.expr("int", sc, d - 1))     # ap is defined before its callees
+                if cands: return Call("ap_last", V(r.choice(cands)), self.expr("int", sc, d - 1))             # ap_last after them
         if ty == "int":
             c = r.random()
             if c < 0.30:
@@ -199,6 +207,7 @@ class Gen:
         return out
 
     MII, MSI, MIS = "HashMap<int, int>", "HashMap<string, int>", "HashMap<int, string>"
+    FII = "fn(int) -> int"
 
     def map_stmt(self, sc):
         """a statement on a HashMap in scope (or the declaration of a new one)"""
@@ -324,11 +333,17 @@ class Gen:
             gl.append(("G1", "int", False, I(self.small()))); gsc.vars.append(("G1", "int", False))
         if r.random() < 0.6:
             gl.append(("gm", "int", True, I(r.randint(0, 5)))); gsc.vars.append(("gm", "int", True)); self.mut_globals.add("gm")
-        for k in range(r.randint(1, 3)):
+        if self.feat.get("fnvals"):
+            fns.append(Func("ap", [("f", self.FII), ("x", "int")], "int", [Println(V("x")), Let("r", "int", Call("f", V("x"))), Println(V("r")), Ret(V("r"))]))
+        for k in range(r.randint(1, 3) + (1 if self.feat.get("fnvals") else 0)):
             name = "f%d" % k
             ptys = [r.choice(["int", "int", "bool", "string", "Point", "array<int>", "Shape"] + ([self.MII, self.MSI] if self.feat.get("maps") else []))
                     for _ in range(r.randint(0, 3))]
+            if self.feat.get("fnvals") and k == 0:
+                ptys = ["int"]                       # at least one function of the shape fn(int) -> int
             ret = r.choice(["int", "int", "bool", "string", "Point"])
+            if self.feat.get("fnvals") and k == 0:
+                ret = "int"
             sc = Scope(gsc)
             params = []
             for t in ptys:
@@ -345,7 +360,12 @@ class Gen:
             fns.append(Func(name, params, ret, body))
             self.funcs.append((name, ptys, ret))
         sc = Scope(gsc)
+        if self.feat.get("fnvals"):
+            fns.append(Func("ap_last", [("f", self.FII), ("x", "int")], "int", [Let("r", "int", Call("f", V("x"))), Println(V("r")), Ret(Bin("+", V("r"), I(1)))]))
+            sc.vars.append(("fv0", self.FII, False))
         body = self.stmts(sc, r.randint(4, 9), 3, False, "int")
+        if self.feat.get("fnvals"):
+            body = [Let("fv0", self.FII, V("f0"))] + body
         body.append(Ret(I(r.choice([0, 0, 1, 7, 42, 255, 256, 300]))))
         fns.append(Func("main", [], "int", body))
         return Program(fns, structs=self.structs, enums=self.enums, unions=self.unions, globals_=gl)
